@@ -282,6 +282,11 @@ func (a *argGen) nasTok() string {
 			return a.bytesTok(5000)
 		}
 		return a.bytesTok(300)
+	case 6:
+		// a NAS-PDU of three and more length fragments (64K + 16K + rest …), now and then
+		if r.Intn(10) == 0 {
+			return a.bytesTok([]int{81921, 98305, 131073}[r.Intn(3)])
+		}
 	}
 	return a.bytesTok(1 + r.Intn(90))
 }
